@@ -6,6 +6,7 @@ import (
 	"fmt"
 	"math/rand"
 	"os"
+	"sort"
 	"strings"
 	"sync"
 
@@ -526,11 +527,26 @@ func runNames(c *sup.Child, b sup.Batch) {
 			}
 			enc, _ := encryptfs.NewEncryptFS(base, cf.settings())
 			subj := mfs.NewSubject(enc)
+			// the twin: a plain filespace of the same kind that receives the same history – "all
+			// name-space operations behave exactly as on the underlying filespace"
+			tmp2, err := os.MkdirTemp("", "c05t-")
+			if err != nil {
+				r.Inconclusive = err.Error()
+				return
+			}
+			defer os.RemoveAll(tmp2)
+			plain, err := newBase(cf.Base, tmp2)
+			if err != nil {
+				r.Inconclusive = err.Error()
+				return
+			}
+			twin := mfs.NewSubject(plain)
 			model := mfs.NewModel()
 			gen := &mfs.Gen{Cfg: mfs.GenCfg{Names: []string{"a", "b", "c"}, MaxDepth: 3, Spell: true, Views: true, ViewOnlyOnDirs: cf.Base == "disk",
 				PrecondBias: 0.9, Weights: mfs.DefaultWeights(), NoDestInsideSrc: true}, R: rng, M: model}
 			var hist []mfs.Op
-			var steps, muts int64
+			var steps, muts, twinSteps int64
+			defer func() { r.AddObs("namespace_steps_compared_with_a_plain_twin", twinSteps) }()
 			for i := 0; i < nops; i++ {
 				op := gen.Next()
 				if cf.Base == "disk" && op.View > 0 && op.View < len(model.Views) {
@@ -540,6 +556,12 @@ func runNames(c *sup.Child, b sup.Batch) {
 				}
 				hist = append(hist, op)
 				got := subj.Exec(i, op)
+				plainGot := twin.Exec(i, op)
+				if d := twinDiff(op, got, plainGot); d != "" {
+					r.Violate("namespace-differs-from-base", fmt.Sprintf("step %d %s: the encrypted filespace over a %s base and a plain %s filespace given the same history answer differently: %s", i, op, cf.Base, cf.Base, d), map[string]any{"conf": cf, "history": mfs.HistString(hist)})
+					return
+				}
+				twinSteps++
 				v := model.Step(op, got)
 				steps++
 				if v.Ambiguous {
@@ -577,6 +599,47 @@ func runNames(c *sup.Child, b sup.Batch) {
 	}
 }
 
+// twinDiff compares the outcome of one step on the encrypted filespace with the outcome of the same
+// step on a plain filespace of the same kind: success or failure of every operation, the answers
+// of the queries and the names of a listing (sizes and content belong to the cipher).
+func twinDiff(op mfs.Op, enc, plain mfs.Res) string {
+	if enc.Panic != "" || plain.Panic != "" {
+		if enc.Panic != plain.Panic {
+			return fmt.Sprintf("panic %q vs %q", enc.Panic, plain.Panic)
+		}
+		return ""
+	}
+	if enc.Err != plain.Err {
+		return fmt.Sprintf("encrypted: err=%v (%s), plain: err=%v (%s)", enc.Err, enc.Text, plain.Err, plain.Text)
+	}
+	if enc.Err {
+		return ""
+	}
+	switch op.Kind {
+	case mfs.OpIsExist, mfs.OpIsFile, mfs.OpIsDir:
+		if enc.B != plain.B {
+			return fmt.Sprintf("encrypted answers %v, plain %v", enc.B, plain.B)
+		}
+	case mfs.OpReadDir:
+		names := func(l []mfs.Ent) string {
+			var out []string
+			for _, e := range l {
+				out = append(out, fmt.Sprintf("%s:%v", e.Name, e.Dir))
+			}
+			sort.Strings(out)
+			return strings.Join(out, ",")
+		}
+		if a, b := names(enc.List), names(plain.List); a != b {
+			return fmt.Sprintf("encrypted lists [%s], plain [%s]", a, b)
+		}
+	case mfs.OpReadFile, mfs.OpReader:
+		if !bytes.Equal(enc.Data, plain.Data) {
+			return fmt.Sprintf("encrypted delivers %d bytes, plain %d bytes of the same written content", len(enc.Data), len(plain.Data))
+		}
+	}
+	return ""
+}
+
 func plan(tier string, seed int64) []sup.Batch {
 	nRound, nTamper, nNames, nBig, nLarge := 3200, 256, 800, 3, 16
 	if tier == "thorough" {
@@ -599,7 +662,7 @@ func main() {
 		ID:    "C05",
 		Level: "fault_enumeration",
 		Rule: "round: random plaintext × configuration (cipher aesgcm|ext, base mem|disk, secret/salt incl. empty, host binding, write path WriteFile|Writer+chunks) – read back by a second instance through ReadFile and Reader (buffer sizes 1,2,7,4096,len+1), stored bytes searched for 16-byte plaintext windows, freshness and run-wide nonce uniqueness, wrong secret / wrong salt must error with zero bytes; " +
-			"tamper: for stored files ≤ 256 bytes EVERY truncation length and EVERY single-byte corruption position (xor 01,80,FF), sampled for larger files, each through both read paths – error, zero bytes, no panic, filespace still usable; names: generated name-space histories on EncryptFS vs the tree model. distinct = distinct (configuration, plaintext prefix) / tamper files / histories",
+			"tamper: for stored files ≤ 256 bytes EVERY truncation length and EVERY single-byte corruption position (xor 01,80,FF), sampled for larger files, each through both read paths – error, zero bytes, no panic, filespace still usable; names: generated name-space histories on EncryptFS vs the tree model and vs a plain filespace of the same kind that receives the same history (every step: same success/failure, same query answers, same listing names, same content). distinct = distinct (configuration, plaintext prefix) / tamper files / histories",
 		Assumptions: []string{
 			"secrecy is checked as absence of 16-byte plaintext windows in stored bytes, not as a cryptographic claim",
 			"host binding is not required to change the key (the statement does not say so)",
@@ -617,7 +680,7 @@ func main() {
 			}
 		},
 		Finish: func(t *sup.Totals) string {
-			if t.Obs["roundtrips"] == 0 || t.Obs["tampered_reads"] < 1000 || t.Obs["namespace_steps"] == 0 {
+			if t.Obs["roundtrips"] == 0 || t.Obs["tampered_reads"] < 1000 || t.Obs["namespace_steps"] == 0 || t.Obs["namespace_steps_compared_with_a_plain_twin"] == 0 {
 				return "a monitor observed nothing"
 			}
 			return ""
